@@ -25,7 +25,7 @@ that output — whatever it contains (in particular an `Error` member does not t
 theorem end_reached_succeeds (env : Env) (fuel : Nat) (states : Json) (name : Str) (state raw out ctx : Json)
     (retries : Nat) (st : St) (h : isTrue (fld state "End") = true)
     (hL : (render out).length ≤ env.maxData) :
-    leave env (fuel + 1) states name state raw out ctx retries st = (.done out, st.exit name out) := by
+    leave env (fuel + 1) states name state raw out ctx retries st = (.done out, st.exit (stateType state) name out) := by
   have : ¬ (render out).length > env.maxData := by omega
   simp [leave, h, this]
 
@@ -44,7 +44,7 @@ theorem next_followed (env : Env) (fuel : Nat) (states : Json) (name next : Str)
     (retries : Nat) (st : St) (hE : isTrue (fld state "End") = false) (hN : fldStr state "Next" = some next)
     (hL : (render out).length ≤ env.maxData) :
     leave env (fuel + 1) states name state raw out ctx retries st =
-      runFrom env fuel states next out ctx 0 (st.exit name out) := by
+      runFrom env fuel states next out ctx 0 (st.exit (stateType state) name out) := by
   have : ¬ (render out).length > env.maxData := by omega
   simp [leave, hE, hN, this]
 
@@ -63,7 +63,7 @@ theorem succeed_state (env : Env) (fuel : Nat) (states : Json) (name : Str) (sta
     (hi : applyPath data ctx (pathArg state "InputPath") = .ok input)
     (ho : applyPath input ctx (pathArg state "OutputPath") = .ok out)
     (hL : (render out).length ≤ env.maxData) :
-    runState env (fuel + 1) states name state data ctx retries st = (.done out, st.exit name out) := by
+    runState env (fuel + 1) states name state data ctx retries st = (.done out, st.exit (stateType state) name out) := by
   have h1 : (S "Succeed" = S "Pass") = False := by decide
   have : ¬ (render out).length > env.maxData := by omega
   simp [runState, h, h1, hi, ho, this]
@@ -109,7 +109,8 @@ theorem task_pipeline (env : Env) (fuel : Nat) (states : Json) (name fn : Str)
     (hm : mergeResult data ctx result state = .ok out) :
     runState env (fuel + 1) states name state data ctx retries st =
       leave env fuel states name state data out ctx retries
-        { st with counts := (bump st.counts (fn, params)).2 } := by
+        (st.taskCall (bump st.counts (fn, params)).2 ((fldStr state "Resource").getD []) params
+          (env.task fn params (bump st.counts (fn, params)).1) env.maxData) := by
   have h1 : (S "Task" = S "Pass") = False := by decide
   have h2 : (S "Task" = S "Succeed") = False := by decide
   have h3 : (S "Task" = S "Fail") = False := by decide
@@ -138,7 +139,8 @@ theorem task_error_goes_to_handler (env : Env) (fuel : Nat) (states : Json) (nam
     (hv : taskReply env.maxData (env.task fn params (bump st.counts (fn, params)).1) = .err e msg) :
     runState env (fuel + 1) states name state data ctx retries st =
       handleErr env fuel states name state data ctx retries e msg
-        { st with counts := (bump st.counts (fn, params)).2 } := by
+        (st.taskCall (bump st.counts (fn, params)).2 ((fldStr state "Resource").getD []) params
+          (env.task fn params (bump st.counts (fn, params)).1) env.maxData) := by
   have h1 : (S "Task" = S "Pass") = False := by decide
   have h2 : (S "Task" = S "Succeed") = False := by decide
   have h3 : (S "Task" = S "Fail") = False := by decide
@@ -257,10 +259,10 @@ theorem map_results_in_item_order (env : Env) (fuel : Nat) (proc : Json) (sel : 
       · rename_i params hp
         split at h
         · rename_i start states hs hst
-          generalize hr : runFrom env n states start params ctx 0 st = r at h
+          generalize hr : runFrom env n states start params ctx 0 (st.push (.iterStarted (ctxStateName ctx) i0)) = r at h
           obtain ⟨r1, s1⟩ := r
           simp only at h
-          generalize hrest : runItems env n proc sel input items (i0 + 1) ctx s1 = rr at h
+          generalize hrest : runItems env n proc sel input items (i0 + 1) ctx (s1.iterEnd (ctxStateName ctx) i0 r1) = rr at h
           obtain ⟨rest, s2⟩ := rr
           simp only at h
           cases r1 with
@@ -270,12 +272,12 @@ theorem map_results_in_item_order (env : Env) (fuel : Nat) (proc : Json) (sel : 
               simp at h
               obtain ⟨h1, _⟩ := h
               subst h1
-              have := ih n (i0 + 1) s1 s2 vs' hrest
+              have := ih n (i0 + 1) _ s2 vs' hrest
               refine ⟨by simp [this.1], ?_⟩
               intro k hk
               cases k with
               | zero =>
-                exact ⟨n, st, s1, start, states, params, v, hs, hst, by simpa using hp, hr, by simp⟩
+                exact ⟨n, _, s1, start, states, params, v, hs, hst, by simpa using hp, hr, by simp⟩
               | succ k =>
                 obtain ⟨f, a, b, start', states', params', v', q1, q2, q3, q4, q5⟩ :=
                   this.2 k (by simpa using hk)
@@ -337,7 +339,7 @@ theorem status_succeeded_iff_done (env : Env) (fuel : Nat) (asl input ctx : Json
     (h1 : fldStr asl "StartAt" = some start) (h2 : fld asl "States" = some states) :
     (run env fuel asl input ctx).status = S "SUCCEEDED" ↔
       ∃ d, (runFrom env fuel states start input ctx 0 {}).1 = .done d := by
-  unfold run
+  unfold run runCore Outcome.ofRun
   simp only [h1, h2]
   generalize runFrom env fuel states start input ctx 0 {} = r
   obtain ⟨r1, s1⟩ := r
@@ -347,7 +349,7 @@ theorem status_failed_iff_failed (env : Env) (fuel : Nat) (asl input ctx : Json)
     (h1 : fldStr asl "StartAt" = some start) (h2 : fld asl "States" = some states) :
     (run env fuel asl input ctx).status = S "FAILED" ↔
       ∃ e c f, (runFrom env fuel states start input ctx 0 {}).1 = .failed e c f := by
-  unfold run
+  unfold run runCore Outcome.ofRun
   simp only [h1, h2]
   generalize runFrom env fuel states start input ctx 0 {} = r
   obtain ⟨r1, s1⟩ := r
